@@ -975,6 +975,7 @@ class Tr:
                 if ty[0] == "alt":     # declared `T1 | T2`: this assignment binds the variable at the alternative the value has
                     if vt not in ty[1]:
                         raise Unsupported("assignment of a %s to %s, declared %s" % (vt, tgt.id, ty))
+                    ty = vt
                 if tgt.id[:-len(SUFFIX)] in self.cfg.get("retype", {}) and vt != ty and vt not in (NONE_T, EMPTY_T):
                     # cfg["retype"]: a variable the source re-uses at another declared type (x = x[0])
                     alts = [parse_type(t) for t in self.cfg["retype"][tgt.id[:-len(SUFFIX)]]]
